@@ -4,7 +4,7 @@
    (_check_and_fire_on_done), Exec.complete (_complete), Macro.sync_send /
    async_send.  Tied to the code by K-macro on completion machines
    (harness/props/c10.py). *)
-From XSM Require Import Model.Macro Proofs.TreeP Proofs.DoneP Proofs.GeomBridge Model.TreeLib Gen.GenGeom.
+From XSM Require Import Model.Macro Proofs.TreeP Proofs.DoneP Proofs.GeomBridge Proofs.DoneBridge Model.TreeLib Gen.GenGeom.
 
 (* done-ness is exactly: final; compound with a done active child; parallel with
    EVERY non-history region active and done (history children are not regions) *)
@@ -23,6 +23,32 @@ Theorem C10_source_doneness_spec : forall m C s,
   wf m = true -> s < size m -> (GenGeom.is_state_done (S (size m)) m C s = true <-> IsDone m C s).
 Proof. exact source_doneness_spec. Qed.
 Print Assumptions C10_source_doneness_spec.
+
+(* TIE T for the completion step: WHICH ancestor's onDone fires when a final state is entered, or whether the machine
+   completes - the decision of _check_and_fire_on_done in BOTH engines' copies (base_interpreter.py: asyncio engine,
+   sync_interpreter.py), re-translated from the current source on every run with the effects replaced by what they decide
+   (the translator refuses unless the effect block queues the done event of THIS ancestor, with the final state's output,
+   and returns) - is the model's: the nearest ancestor that declares onDone and is done, else completion iff the final
+   state is a child of the root.  The model's effectful fire_on_done decides exactly so and acts on the decision. *)
+Theorem C10_fire_decision_is_the_source_async : forall m C, wf m = true -> forall fin, fin < size m ->
+  GenGeom.on_done_async m C fin = model_decision m C fin.
+Proof. exact on_done_async_bridge. Qed.
+Print Assumptions C10_fire_decision_is_the_source_async.
+
+Theorem C10_fire_decision_is_the_source_sync : forall m C, wf m = true -> forall fin, fin < size m ->
+  GenGeom.on_done_sync m C fin = model_decision m C fin.
+Proof. exact on_done_sync_bridge. Qed.
+Print Assumptions C10_fire_decision_is_the_source_sync.
+
+Theorem C10_fire_acts_on_the_decision : forall eng pr m fin s,
+  fire_on_done eng pr m fin s =
+  match model_decision m (s_cfg s) fin with
+  | DFire a => send_self eng (done_event m a 0) (note_chained eng pr s)
+  | DComplete => complete (match m_output m with Some o => Some o | None => n_output (nd m fin) end) s
+  | DNothing => s
+  end.
+Proof. exact fire_on_done_decides. Qed.
+Print Assumptions C10_fire_acts_on_the_decision.
 
 (* never while any region is not final ... *)
 Theorem C10_parallel_all : forall m C p r,
